@@ -5,7 +5,7 @@
 //! without hashing, SIMD group probing, heap growth or `RandomState`
 //! thread-locals, none of which CBMC can decide in reasonable time.  Entries never
 //! move between slots (removal just clears the flag), which keeps the SAT problem
-//! free of permutation reasoning.  Capacity is `MAP_CAP` entries (default 8,
+//! free of permutation reasoning.  Capacity is `MAP_CAP` entries (default 4,
 //! build-time env `VERIF_MAP_CAP`); exceeding it prunes the path (`kani::assume`)
 //! and is a stated bound of the harnesses.  Every scan has the constant trip count
 //! MAP_CAP, so it does not multiply with loops of the code under test.  Native
@@ -13,7 +13,7 @@
 
 const fn parse_cap(s: Option<&str>) -> usize {
     match s {
-        None => 8,
+        None => 4,
         Some(s) => {
             let b = s.as_bytes();
             let mut i = 0;
